@@ -15,7 +15,8 @@
    Abstractions, NAMED (they are hypotheses of every theorem about the Go code, not of the Coq
    theorems, which are closed):
      A-hash   connKey hashes the tuple (endpoint, subprotocol, headers, init payload) with
-              xxhash64; the model keys the maps by the tuple itself (no collisions).
+              xxhash64; the model keys the maps by the tuple itself (no collisions).  The headers
+              enter as what Header.Write writes: every value of every name (hdr_lines).
      A-xid    xid.New() never repeats and is not guessable: wire ids are drawn from a counter and
               the upstream only names ids it has been sent, or ids nobody holds.
      A-fifo   one read loop per connection reads frames in the order the upstream wrote them
@@ -43,11 +44,30 @@
 From Coq Require Import List NArith Arith Bool.
 Import ListNotations.
 
-Definition key := (N * N * N * N)%type.   (* endpoint, subprotocol, headers, init payload *)
+(* common.Options.Headers is an http.Header, a MULTIMAP name -> list of values.  [hdrs] is that map enumerated in
+   the order of its names (Header.Write sorts the names; a Go map holds a name once -- names are compared as
+   spelled, connKey does not canonicalise them).  connKey feeds Header.Write's output to the hash: one
+   "name: value\r\n" line per VALUE -- every value of every name, in the order of the value list, nothing for a
+   name without values.  [hdr_lines] is that line sequence; it is component 3 of the key. *)
+Definition hdrs := list (N * list N).
+Definition hdr_lines (h : hdrs) : list (N * N) := flat_map (fun e => map (pair (fst e)) (snd e)) h.
+Definition line_eqb (a b : N * N) : bool := N.eqb (fst a) (fst b) && N.eqb (snd a) (snd b).
+Fixpoint lines_eqb (a b : list (N * N)) : bool :=
+  match a, b with
+  | [], [] => true
+  | x :: a', y :: b' => line_eqb x y && lines_eqb a' b'
+  | _, _ => false
+  end.
+
+Definition key := (N * N * list (N * N) * N)%type.   (* endpoint, subprotocol, header lines (ALL of them), init payload *)
 Definition key_eqb (a b : key) : bool :=
   match a, b with
-  | (a1, a2, a3, a4), (b1, b2, b3, b4) => N.eqb a1 b1 && N.eqb a2 b2 && N.eqb a3 b3 && N.eqb a4 b4
+  | (a1, a2, a3, a4), (b1, b2, b3, b4) => N.eqb a1 b1 && N.eqb a2 b2 && lines_eqb a3 b3 && N.eqb a4 b4
   end.
+
+(* the option tuple a subscriber passes to Subscribe, and connKey *)
+Definition opts := (N * N * hdrs * N)%type.
+Definition conn_key (o : opts) : key := match o with (e, p, h, ip) => (e, p, hdr_lines h, ip) end.
 
 (* why a connection died / who is to blame (ghost tag carried by errors) *)
 Inductive cause :=
@@ -300,7 +320,7 @@ Definition d_publish (x : dial) (r : option err) (ab : bool) : dial :=
   {| d_key := d_key x; d_owner := d_owner x; d_phase := DReturned; d_done := Some r; d_abort := ab |}.
 
 Definition init (idl : bool) : st :=
-  {| pc := fun _ => SIdle; ctxc := fun _ => false; okey := fun _ => (0, 0, 0, 0)%N;
+  {| pc := fun _ => SIdle; ctxc := fun _ => false; okey := fun _ => (0, 0, [], 0)%N;
      conns := fun _ => None; dialing := fun _ => None; dials := fun _ => None; cns := fun _ => None;
      next_c := 0; next_w := 0; idle := idl; seen := []; sse := fun _ => SseIdle |}.
 
